@@ -447,7 +447,8 @@ example : TF (fun f => f = "tuple" ∨ f = "emit") false
 
 /-- **Compile correctness, calls through a local**: `(x e₁ … eₙ)` where `x` is a LOCAL name (`lookupEnv env x = some a`) whose box
     holds a core function at entry (`readBox s a = .cfun f`, `f ≠ apply`; e.g. `(def pr print) … (pr 1 2)`), operands in the fragment
-    `TF G false`.  `janetc_resolve` gives the local's register as the head slot, no constant is loaded, the code is operands, pushes,
+    `TF G b` (either fragment; with `if` among the operands the map-length
+    hypothesis `hm` is needed).  `janetc_resolve` gives the local's register as the head slot, no constant is loaded, the code is operands, pushes,
     `CALL d r_x`, and the callee is read from the register WHEN THE CALL IS MADE — after the operands ran; they leave it untouched
     (it is allocated) and cannot change the box (`Lang/Sem` reads the head first).  Conclusion: `Correct2 … false …`, i.e. literally
     the conclusion of `compile_correct_nary_calls` (compile-side shape, slot facts, `EnvS`, `NameFrame`, the VM run reaching value,
@@ -463,7 +464,7 @@ theorem compile_correct_local_calls (p : Program) (f0 : Frame) (rest : List Fram
     (ht : opts.tail = false) (hh : opts.hint = none)
     (hs : c.scopes = sc :: rs) (hp : c.pools = pool :: ps) (hl : c.lim ≤ 240) (htop : sc.top = false)
     (hxs : specials.contains x = false) (hx : lookupEnv env x = some a) (hbox : readBox s a = .cfun f) (hna : f ≠ "apply")
-    (hargs : ∀ e, e ∈ args → TF G false e)
+    (b : Bool) (hargs : ∀ e, e ∈ args → TF G b e) (hm : b = true → c.map.length = c.buf.length)
     (hcomp : cValue (fuel + 1) opts (.form (.sym x :: args) pp) c = some (slot, c'))
     (hsem : eval n cur env (.form (.sym x :: args) pp) s = .ok (v, env') s')
     (henv : EnvS G c.scopes env s.boxes.size sc.ra) :
@@ -482,10 +483,10 @@ theorem compile_correct_local_calls (p : Program) (f0 : Frame) (rest : List Fram
     rw [hbox] at happ
     rw [hq] at hcc
     exact Correct2.recur p f0 rest V P (q := q)
-      (callL_core p f0 rest V P hP hK G (TF G false) false fuel
-        (tf_correct p f0 rest V P hP hK FF G false false (fun h => absurd h (by simp)) fuel)
-        (fun h => absurd h (by simp)) (fun e h => h.notSplice) x args f hna hargs
-        { c with cur := q } cq slot0 sc rs pool ps n2 (posOf cur pp) env env' s s_a s' vs v a hs hp hl htop (fun h => absurd h (by simp))
+      (callL_core p f0 rest V P hP hK G (TF G b) b fuel
+        (tf_correct_b p f0 rest V P hP hK FF G b fuel)
+        (tf_ML G b b fuel) (fun e h => h.notSplice) x args f hna hargs
+        { c with cur := q } cq slot0 sc rs pool ps n2 (posOf cur pp) env env' s s_a s' vs v a hs hp hl htop hm
         hx hbox hcc hsa happ henv)
 
 /-- non-vacuity: a state in which the local `pr` holds the core function `print` -/
@@ -493,9 +494,11 @@ example : lookupEnv [("pr", 0)] "pr" = some 0 ∧ readBox { boxes := #[.cfun "pr
 
 /-- **Compile correctness with `if`** — fragment `TF G true`:
     `e ::= literal | symbol | (f e ...) | (do e ...) | (upscope e ...) | (def x e) | (if c e [e])` where the condition `c` of an `if` is a
-    call form (`IsCall`: its compiled slot is a fresh register, so `janetc_if` takes the jump path; the constant-condition folding —
-    condition a literal or a global symbol — is not covered yet, see `compile_correct_partial`); else-branch optional; value used or
-    dropped (a dropped `if` returns the constant-nil slot and materialises no value: the value clause is under `opts.drop = false`).
+    literal, a symbol, a call or a nested `if` (`CondOK`; a `do` / `upscope` / `def` form as condition is not covered); else-branch
+    optional; value used or dropped (a dropped `if` returns the constant-nil slot and materialises no value: the value clause is
+    under `opts.drop = false`).  A condition that compiles to a CONSTANT (literal, global symbol) is folded by `janetc_if`: only the
+    live branch's code is emitted, the dead branch is compiled by `janetc_throwaway` in an unused scope and its code removed (its
+    constants stay in the pool, as in the C); `truthy` of the condition's value = `constTruthy` of its constant.  Otherwise:
     `janetc_if`: target register allocated first (value used), a block scope for the condition (names it defines are visible in both
     branches, as `Lang/Sem` evaluates the branch in the condition's environment), `JUMP_IF_NOT cond` patched to the else label, the
     then-branch in its own block scope, copy of its slot into the target, `JUMP` patched to the end (omitted when the value is
@@ -529,7 +532,7 @@ example : TF (fun f => f = "tuple" ∨ f = "emit") true
     (.form [.sym "if", .form [.sym "tuple", .sym "x"] {}, .form [.sym "emit", .lit (.num 1), .lit (.num 2)] {},
             .form [.sym "do", .form [.sym "def", .sym "y", .lit (.num 3)] {},
                    .form [.sym "if", .form [.sym "emit", .sym "y"] {}, .sym "y"] {}] {}] {}) := by
-  refine .iff _ _ _ {} rfl ⟨"tuple", _, {}, rfl, by decide⟩ (by decide) ?_ ?_ (fun e he => ?_)
+  refine .iff _ _ _ {} rfl (Or.inr (Or.inr (Or.inl ⟨"tuple", _, {}, rfl, by decide⟩))) (by decide) ?_ ?_ (fun e he => ?_)
   · exact .call "tuple" _ {} (by decide) (by decide) (Or.inl rfl) (fun a ha => by
       simp only [List.mem_cons, List.not_mem_nil, or_false] at ha; subst ha; exact .sym "x")
   · refine .call "emit" _ {} (by decide) (by decide) (Or.inr rfl) (fun a ha => ?_)
@@ -541,11 +544,24 @@ example : TF (fun f => f = "tuple" ∨ f = "emit") true
     simp only [List.mem_cons, List.not_mem_nil, or_false] at he
     rcases he with rfl | rfl
     · exact .deff "y" _ {} (by decide) (.lit _ trivial)
-    · refine .iff _ _ _ {} rfl ⟨"emit", _, {}, rfl, by decide⟩ (by decide) ?_ (.sym "y") (fun e he => by simp at he)
+    · refine .iff _ _ _ {} rfl (Or.inr (Or.inr (Or.inl ⟨"emit", _, {}, rfl, by decide⟩))) (by decide) ?_ (.sym "y") (fun e he => by simp at he)
       exact .call "emit" _ {} (by decide) (by decide) (Or.inr rfl) (fun a ha => by
         simp only [List.mem_cons, List.not_mem_nil, or_false] at ha; subst ha; exact .sym "y")
 
-/-- **The error outcome of a call**: `(f e₁ … eₙ)`, `f` a global core function, operands in the fragment `TF G false` and evaluating
+/-- non-vacuity: conditions that are folded (`true`, the global `tuple`) or read from a register (the local `x`):
+    `(if true (if x 1 2) (if tuple 3))` -/
+example : TF (fun f => f = "tuple") true
+    (.form [.sym "if", .lit (.bool true), .form [.sym "if", .sym "x", .lit (.num 1), .lit (.num 2)] {},
+            .form [.sym "if", .sym "tuple", .lit (.num 3)] {}] {}) := by
+  refine .iff _ _ _ {} rfl (Or.inl ⟨_, rfl⟩) (by decide) (.lit _ trivial) ?_ (fun e he => ?_)
+  · refine .iff _ _ _ {} rfl (Or.inr (Or.inl ⟨_, rfl⟩)) (by decide) (.sym "x") (.lit _ trivial) (fun e he => ?_)
+    simp only [List.mem_cons, List.not_mem_nil, or_false] at he
+    subst he; exact .lit _ trivial
+  · simp only [List.mem_cons, List.not_mem_nil, or_false] at he
+    subst he
+    exact .iff _ _ _ {} rfl (Or.inr (Or.inl ⟨_, rfl⟩)) (by decide) (.sym "tuple") (.lit _ trivial) (fun e he => by simp at he)
+
+/-- **The error outcome of a call**: `(f e₁ … eₙ)`, `f` a global core function, operands in the fragment `TF G b` (either fragment) and evaluating
     to values (`hsa`), and the core function RAISES (`happ`: `applyFn … = .err ev epos s'`, a runtime error or a user error), so that
     `Lang/Sem.eval` of the form is that error (first conjunct), attributed to the position of the call form, in the state after the
     operands (same heap, same effect trace).  The compiled code is that of the non-error case.  From every configuration of the
@@ -563,7 +579,8 @@ theorem compile_correct_call_error (p : Program) (f0 : Frame) (rest : List Frame
     (vs : List Value) (ev : Value) (epos : Pos)
     (ht : opts.tail = false) (hh : opts.hint = none)
     (hs : c.scopes = sc :: rs) (hp : c.pools = pool :: ps) (hl : c.lim ≤ 240) (htop : sc.top = false)
-    (hf : specials.contains f = false) (hna : f ≠ "apply") (hG : G f) (hargs : ∀ a, a ∈ args → TF G false a) (hcur : c.cur = cur)
+    (hf : specials.contains f = false) (hna : f ≠ "apply") (hG : G f)
+    (b : Bool) (hargs : ∀ a, a ∈ args → TF G b a) (hm : c.map.length = c.buf.length) (hcur : c.cur = cur)
     (hcomp : cValue (fuel + 1) opts (.form (.sym f :: args) pp) c = some (slot, c'))
     (hsa : evalArgs (n2 + 1) (posOf cur pp) env args s = .ok (vs, env_a) s_a)
     (happ : applyFn (n2 + 1) (posOf cur pp) (.cfun f) vs s_a = .err ev epos s')
@@ -602,14 +619,14 @@ theorem compile_correct_call_error (p : Program) (f0 : Frame) (rest : List Frame
     subst hsl hc'
     rw [hq] at hcc
     obtain ⟨e1, e2, mx, more, seg, segm, b1, b2, b3, b4, b5, vm⟩ :=
-      err_call_core p f0 rest V P hP hK FF G false false fuel
-        (tf_correct p f0 rest V P hP hK FF G false false (fun h => absurd h (by simp)) fuel)
+      err_call_core p f0 rest V P hP hK FF G b b fuel
+        (tf_correct_b p f0 rest V P hP hK FF G b fuel)
         f args hna hG hargs { c with cur := posOf cur pp } cq slot0 sc rs pool ps n2 env env_a s s_a s' vs ev epos hs hp hl htop
-        (fun h => absurd h (by simp)) hcc hsa happ henv
+        hm hcc hsa happ henv
     exact ⟨hsemE, e1, e2, mx, more, seg, segm, b1, b2, b3, b4, b5, vm⟩
 
 /-- **Compile correctness, tail position (calls)**: a call `(f e₁ … eₙ)` of a global core function (`G f`, not `apply`, not a
-    special form), operands in the fragment `TF G false`, compiled with the TAIL flag in a scope that is not the top level
+    special form), operands in the fragment `TF G b` (either fragment; `hm` needed when `if` is among them), compiled with the TAIL flag in a scope that is not the top level
     (`janetc_call` with JANET_FOPTS_TAIL): the operands and the pushes are those of the non-tail case, then JOP_TAILCALL of the
     callee — no target register; the result slot carries JANET_SLOT_RETURNED, so `janetc_value` emits no RETURN after it.
     If `Lang/Sem.eval` gives the call the value `v` and state `s'`, the VM — from any configuration of the activation satisfying
@@ -625,7 +642,8 @@ theorem compile_correct_tail_calls (p : Program) (f0 : Frame) (rest : List Frame
     (pool : List JanetModel.Emit.KConst) (ps : List (List JanetModel.Emit.KConst)) (n : Nat) (cur : Pos) (env env' : Env) (s s' : SS) (v : Value)
     (ht : opts.tail = true) (hh : opts.hint = none)
     (hs : c.scopes = sc :: rs) (hp : c.pools = pool :: ps) (hl : c.lim ≤ 240) (htop : sc.top = false)
-    (hf : specials.contains f = false) (hna : f ≠ "apply") (hG : G f) (hargs : ∀ a, a ∈ args → TF G false a)
+    (hf : specials.contains f = false) (hna : f ≠ "apply") (hG : G f)
+    (b : Bool) (hargs : ∀ a, a ∈ args → TF G b a) (hm : b = true → c.map.length = c.buf.length)
     (hcomp : cValue (fuel + 1) opts (.form (.sym f :: args) pp) c = some (slot, c'))
     (hsem : eval n cur env (.form (.sym f :: args) pp) s = .ok (v, env') s')
     (henv : EnvS G c.scopes env s.boxes.size sc.ra) :
@@ -653,11 +671,11 @@ theorem compile_correct_tail_calls (p : Program) (f0 : Frame) (rest : List Frame
     obtain ⟨n2, vs, s_a, _, hsa, happ⟩ := eval_callN_inv n cur env env' f args pp s s' v hf hgl hsem
     rw [hq] at hcc
     obtain ⟨hret, mx, more, seg, segm, b1, b2, b3, b4, b5, vm⟩ :=
-      tail_call_core p f0 rest V P hP hK FF G (TF G false) false fuel
-        (tf_correct p f0 rest V P hP hK FF G false false (fun h => absurd h (by simp)) fuel)
-        (fun h => absurd h (by simp)) (fun a h => h.notSplice)
+      tail_call_core p f0 rest V P hP hK FF G (TF G b) b fuel
+        (tf_correct_b p f0 rest V P hP hK FF G b fuel)
+        (tf_ML G b b fuel) (fun a h => h.notSplice)
         opts ht f args hna hG hargs { c with cur := q } c1 ret sc rs pool ps n2 (posOf cur pp) env env' s s_a s' vs v hs hp hl htop
-        (fun h => absurd h (by simp)) hcc hsa happ henv
+        hm hcc hsa happ henv
     simp only [cReturn_returned c1 ret hret, Option.bind_some, Option.some.injEq, Prod.mk.injEq] at hcomp
     obtain ⟨e1, e2⟩ := hcomp
     subst e1 e2
@@ -677,10 +695,8 @@ example : ({ tail := true } : Fopts).tail = true ∧ ({ tail := true } : Fopts).
     `compile_correct_if` (`if`, jump path), `compile_correct_tail_calls` (a call in tail position: TAILCALL, the next VM step is
     the return of the value), `compile_correct_call_error` (a raising core function: same error value at the same position).
     Missing, exactly: (1) calls whose callee is a closure or a computed head (needs closures in the VM relation); (2) `if` whose
-    condition compiles to a CONSTANT (literal / global symbol: the constant-condition folding of `janetc_if`; `janetc_throwaway`
-    truncates the source map by the CODE length — the induction now carries `map.length = buf.length` for it, the case itself is
-    the next step) — the fragment asks for a call form as condition (`IsCall`), although `if_jump_core` already covers every
-    non-constant condition slot (a local symbol too); `var` / `set` (a register that is written: the frame clause "every register
+    condition is a `do` / `upscope` / `def` form (its slot can be a constant whose value is known only through the run: needs a
+    constant-value induction); `var` / `set` (a register that is written: the frame clause "every register
     allocated at entry keeps its content" and the prefix-stability of the boxes become false and must be restated relative to the
     mutable names a form reaches; the invariant needs injectivity of mutable names' registers — `(def y x)` aliases only immutable
     locals — and of boxes; the induction hypothesis must be generalised to a compile with a HINT slot, since `set` compiles its
